@@ -121,9 +121,22 @@ func (w *World) Do(o fsx.Op) (r fsx.Reply, implFail bool, mis *reffs.Mismatch) {
 	}
 	r = fsx.Exec(w.Srv, o, h, h2)
 	if w.Mark {
-		stable := 1
-		if o.K == "WRITE" && r.OK() && r.Committed == 0 {
-			stable = 0
+		// an acknowledgement has stable semantics if the request succeeded, changed
+		// something (or was a COMMIT) and was not an UNSTABLE write
+		stable := 0
+		if r.OK() {
+			switch o.K {
+			case "CREATE", "MKDIR", "SYMLINK", "REMOVE", "RMDIR", "SETATTR", "COMMIT":
+				stable = 1
+			case "RENAME":
+				if !(o.H == o.H2 && o.N == o.N2) {
+					stable = 1
+				}
+			case "WRITE":
+				if r.Committed != 0 && r.Count > 0 {
+					stable = 1
+				}
+			}
 		}
 		w.Disk.Mark("ack", w.NOps, stable)
 	}
